@@ -460,6 +460,67 @@ def replan(small):
 # ---------------------------------------------------------------------------------------------------------------------
 # (2) idle connection, close twice, reconnect
 # ---------------------------------------------------------------------------------------------------------------------
+def check_poll(ctx, kind):
+    """Bytes the peer has already sent are returned by a read with transport_timeout_s = 0 (a poll): a zero timeout bounds the WAIT, it is not a
+    licence to lose or ignore what has arrived; the same for both transports (C16: they deliver the same bytes)."""
+    Timeout = exc_cls()
+    blob = bytes((i * 5 + 1) % 256 for i in range(300))
+    done = threading.Event()
+
+    def handler(conn, k):
+        conn.sendall(blob)
+        done.wait(20.0)
+        drain_until_eof(conn)
+
+    peer = Peer(handler)
+    io = make_io(kind, peer.port)
+    problems = []
+    res = {}
+
+    async def host():
+        await io.connect(1.0)
+        first = await io.read(4, 1.0)          # proves the data has arrived (and, for the async transport, is being buffered)
+        await io.sleep(0.3)
+        got = bytearray(first)
+        for _ in range(200):
+            if len(got) >= len(blob):
+                break
+            try:
+                data = await io.read(64, 0)
+            except Timeout:
+                res["timeout_at"] = len(got)
+                break
+            if not data:
+                break
+            got += data
+        res["got"] = bytes(got)
+        done.set()
+        await io.close()
+
+    try:
+        drive(kind, host())
+    except Exception as exc:  # noqa
+        problems.append(problem("exception", "host procedure raised %s: %s" % (type(exc).__name__, exc)))
+        done.set()
+        try:
+            drive(kind, io.close())
+        except Exception:  # noqa
+            pass
+    if not peer.finish():
+        problems.append(problem("infra", "peer thread did not finish"))
+    if "timeout_at" in res:
+        problems.append(problem("poll-lost-data", "bulk_read(64, transport_timeout_s=0) raised TcpTimeoutException after %d of %d bytes although the peer had sent all of them 0.3 s earlier" % (res["timeout_at"], len(blob))))
+    elif "got" in res and res["got"] != blob:
+        problems.append(problem("stream-differs", "polling reads returned %d bytes, the peer sent %d" % (len(res["got"]), len(blob))))
+    rep = ctx.report
+    rep.evaluations += 1
+    rep.count("kind", "poll")
+    rep.count("transport", kind)
+    if problems:
+        return dict(case=dict(test="poll", transport=kind), why=summarize(problems), signature=dict(kind=problems[0]["kind"]), no_shrink=True)
+    return None
+
+
 def check_idle(ctx, kind, timeout):
     """Nothing to read -> TcpTimeoutException, not before (about) the timeout; data written afterwards arrives intact."""
     Timeout = exc_cls()
@@ -1129,6 +1190,7 @@ def run(ctx):
             note(check_idle(ctx, kind, timeout))
         note(check_reconnect(ctx, kind))
         note(check_reset(ctx, kind))
+        note(check_poll(ctx, kind))
         note(check_write(ctx, kind, 1 << 20 if quick else 5 << 20))
     observe_async_write_timeout(ctx)
     nsess = 2 if quick else 6
@@ -1168,6 +1230,8 @@ def replay(ctx, payload):
         f = check_reconnect(ctx, case["transport"])
     elif test == "reset":
         f = check_reset(ctx, case["transport"])
+    elif test == "poll":
+        f = check_poll(ctx, case["transport"])
     elif test == "write":
         f = check_write(ctx, case["transport"], case.get("size", 1 << 20), case.get("bufsize", 8192))
     elif test == "session":
